@@ -66,12 +66,29 @@ func detTransaction(seed uint64) (digest string, size int, pan string) {
 	return short(line), len(line), ""
 }
 
-// determinism-one: the transaction of one seed as the FIRST thing this process executes; prints its digest.
+// detJournal runs the single-frame journal program drawn from seed once (registrations, value and reference change
+// journals on short and long strings, hostile operands) and returns the digest of everything observed.
+func detJournal(seed uint64) (digest string, size int, pan string) {
+	forks := []string{"Byzantium", "Istanbul", "Berlin", "London", "Shanghai", "Cancun"}
+	r := rng.New(seed)
+	cs := genJournalCase(r, forks[int(seed%uint64(len(forks)))])
+	if strings.HasPrefix(cs.Result, "panic") {
+		return "", 0, cs.Result
+	}
+	return short(cs.Line), len(cs.Line), ""
+}
+
+// determinism-one: the transaction (or journal program) of one seed as the FIRST thing this process executes; prints its digest.
 func cmdDeterminismOne(args []string) error {
 	fs := flag.NewFlagSet("determinism-one", flag.ExitOnError)
 	seed := fs.Uint64("seed", 0, "transaction seed")
+	kind := fs.String("kind", "transaction", "transaction|journal")
 	fs.Parse(args)
-	d, _, pan := detTransaction(*seed)
+	run := detTransaction
+	if *kind == "journal" {
+		run = detJournal
+	}
+	d, _, pan := run(*seed)
 	if pan != "" {
 		fmt.Println("panic:" + pan)
 		return nil
@@ -115,6 +132,46 @@ func cmdDeterminism(args []string) error {
 	for i := 0; i < c.n; i++ {
 		seed := r.U64()
 		other := r.U64()
+		if i%6 == 1 {
+			// single-frame journal program: the journal helpers work on shared package-level 256-bit values
+			cs := detCase{Idx: len(cases), Kind: "journal-program", Seed: seed, Repeats: 4}
+			wg.Add(1)
+			go func(seed uint64) {
+				defer wg.Done()
+				sem <- struct{}{}
+				defer func() { <-sem }()
+				out, err := exec.Command(self, "determinism-one", "--kind", "journal", "--seed", fmt.Sprint(seed)).Output()
+				res := strings.TrimSpace(string(out))
+				if err != nil {
+					res = "child failed: " + err.Error()
+				}
+				mu.Lock()
+				childOut[seed] = res
+				mu.Unlock()
+			}(seed)
+			seen := map[string]bool{}
+			for k := 0; k < 4; k++ {
+				d, size, pan := detJournal(seed)
+				if pan != "" {
+					cs.Oracle = append(cs.Oracle, "C16: "+pan)
+					break
+				}
+				seen[d] = true
+				cs.Size = size
+				if k%2 == 0 {
+					detJournal(other + uint64(k)) // unrelated journal program in between
+				}
+			}
+			for l := range seen {
+				cs.Digests = append(cs.Digests, l)
+			}
+			if len(seen) > 1 {
+				cs.Oracle = append(cs.Oracle, fmt.Sprintf("C16: %d different serialisations (results, memory, recorded journal, queries) over 4 runs of one journal program on equal pre-state", len(seen)))
+			}
+			stats["journal-program"]++
+			cases = append(cases, cs)
+			continue
+		}
 		if i%3 != 0 {
 			// tracer API history: registrations with several children under one parent, changes, calls, all queries
 			cs := detCase{Idx: len(cases), Kind: "tracer-history", Seed: seed, Repeats: R}
@@ -147,7 +204,7 @@ func cmdDeterminism(args []string) error {
 			defer wg.Done()
 			sem <- struct{}{}
 			defer func() { <-sem }()
-			out, err := exec.Command(self, "determinism-one", "--seed", fmt.Sprint(seed)).Output()
+			out, err := exec.Command(self, "determinism-one", "--kind", "transaction", "--seed", fmt.Sprint(seed)).Output()
 			res := strings.TrimSpace(string(out))
 			if err != nil {
 				res = "child failed: " + err.Error()
@@ -196,14 +253,18 @@ func cmdDeterminism(args []string) error {
 	wg.Wait()
 	for i := range cases {
 		cs := &cases[i]
-		if cs.Kind != "transaction" || len(cs.Digests) != 1 {
+		if (cs.Kind != "transaction" && cs.Kind != "journal-program") || len(cs.Digests) != 1 {
 			continue
+		}
+		kindFlag := "transaction"
+		if cs.Kind == "journal-program" {
+			kindFlag = "journal"
 		}
 		out := childOut[cs.Seed]
 		cs.Fresh = out
 		stats["fresh-process-runs"]++
 		if out != "digest:"+cs.Digests[0] {
-			cs.Oracle = append(cs.Oracle, fmt.Sprintf("C16: the transaction of seed %d gives %q as the first execution of a fresh process but digest %s after unrelated executions in this process (state shared between EVM instances); replay: vh determinism-one --seed %d", cs.Seed, out, cs.Digests[0], cs.Seed))
+			cs.Oracle = append(cs.Oracle, fmt.Sprintf("C16: the execution of seed %d gives %q as the first execution of a fresh process but digest %s after unrelated executions in this process (state shared between EVM instances); replay: vh determinism-one --kind %s --seed %d", cs.Seed, out, cs.Digests[0], kindFlag, cs.Seed))
 		}
 	}
 	_ = vm.ErrOutOfGas
